@@ -170,6 +170,9 @@ def inputs(chk):
         items.append((label, data, 'x86_64-sysv', False))
     # the preprocessor builds strings and token arrays of its own: the stringification and variadic families of C12, printed by -E
     # and (wrapped as an initialiser) compiled, so that bytes behind an unterminated or short-filled buffer reach the output
+    from . import c07
+    for k, (src, _, (et, st)) in enumerate(c07.string_then_element_units()):
+        items.append(('string-then-element/%s/%r' % (et.replace(' ', '-'), st), src.encode(), 'x86_64-sysv', False))
     from . import c12
     pps = list(c12.m3_stringify(False)) + list(c12.m3_stringify_and_plain())
     pps = pps[::3] if chk.quick else pps
